@@ -20,7 +20,7 @@ case "$variant" in
       HAVE_AVX2INTRIN_H HAVE_AVX512FINTRIN_H HAVE_WMMINTRIN_H HAVE_RDRAND ;;
   nommap) drop HAVE_MMAP HAVE_MLOCK HAVE_MADVISE ;;
   nommap2) drop HAVE_MMAP HAVE_MLOCK HAVE_MADVISE HAVE_POSIX_MEMALIGN ;;
-  asan) CC=${CC_SAN:-clang}; extra="-fsanitize=address,undefined -fno-sanitize-recover=undefined -fno-omit-frame-pointer -g"; opt="-O1" ;;
+  asan) CC=${CC_SAN:-clang}; extra="-fsanitize=address,undefined -fno-sanitize=alignment,nonnull-attribute,returns-nonnull-attribute -fno-sanitize-recover=undefined -fno-omit-frame-pointer -g"; opt="-O1" ;;
   tsan) CC=${CC_SAN:-clang}; extra="-fsanitize=thread -g"; opt="-O1" ;;
   *) echo "unknown variant $variant" >&2; exit 2 ;;
 esac
